@@ -57,6 +57,7 @@ DEVIATIONS: t.Dict[str, t.List[t.Any]] = {
     "dc.reply_reserved": [0xFF], "dc.header_sign": [False], "dc.isd_port": [1, 65535], "dc.server_legs": [2],
     "dc.env_flags": ["alt"],  # the other spelling of the envelope flags: 0 instead of 2 (seed keys), 3 instead of 1 (public key)
     "dc.name_style": ["unicode"],  # domain / forest names with non-ASCII and non-BMP characters
+    "dc.forest": ["shorter", "longer"],  # a child domain / second tree: the forest name differs from the domain name (also in length)
 }
 
 
@@ -84,15 +85,17 @@ def run_cfg(seed: int, c: Cfg):
     shape = dict(c.dc)
     if shape.pop("name_style", None) == "unicode":
         dom = ("d\u00f6m\U0001d521in.t\u00ebst" * 2)[: c.namelen]
+    fst = shape.pop("forest", None)
+    forest = dom if fst is None else (dom[len(dom) // 2 + 1 :] or "f") if fst == "shorter" else "root." + dom
     if shape.pop("env_flags", None) == "alt":
         shape["envelope_override"] = lambda e: e._replace(flags={2: 0, 1: 3}.get(e.flags, e.flags))
-    dc = refdc.DC([rk], now=now if c.op == "protect" else (L0, 31, 31), authorised=c.kind == "seed", domain=dom, forest=dom, sec=c.sec, sig_size=c.sig,
+    dc = refdc.DC([rk], now=now if c.op == "protect" else (L0, 31, 31), authorised=c.kind == "seed", domain=dom, forest=forest, sec=c.sec, sig_size=c.sig,
                   cover=shape.pop("cover", "exact"), header_sign=shape.pop("header_sign", True), isd_port=shape.pop("isd_port", refdc.ISD_PORT))
     legs = shape.get("server_legs", 1)
     for k_, v_ in shape.items():
         assert hasattr(dc, k_), k_
         setattr(dc, k_, v_)
-    blob = cms.ref_encrypt(rk, sid, PT, (L0, c.pos[0], c.pos[1]), cek=d.bytes(32), gcm_nonce_=d.bytes(12), key_nonce=d.bytes(32), domain=dom, forest=dom)
+    blob = cms.ref_encrypt(rk, sid, PT, (L0, c.pos[0], c.pos[1]), cek=d.bytes(32), gcm_nonce_=d.bytes(12), key_nonce=d.bytes(32), domain=dom, forest=forest)
     user, pw = (secctx.NTLM_USER, secctx.NTLM_PASS) if c.sec == "ntlm" else ("u", "p")
     kw = dict(server="dc.verif.test", username=user, password=pw, auth_protocol="ntlm")
     ent = seams.Entropy(b"C17")
